@@ -216,6 +216,14 @@ impl FileNameHandler {
     }
 }
 
+#[cfg(raindb_verif)]
+impl FileNameHandler {
+    /// Verification accessor: the database path as given in the options.
+    pub(crate) fn verif_db_path(&self) -> &str {
+        &self.db_path
+    }
+}
+
 /// Private methods
 impl FileNameHandler {
     /// Attempts to parse a file number from the provided file name.
